@@ -6,6 +6,7 @@
 #include <stdio.h>
 #include <stdlib.h>
 #include <string.h>
+#define VERIF_REPLAY_RT 1
 #include "v.h"
 static unsigned long long* g_vals; static size_t g_n, g_i; static int g_exhausted;
 static void v_load(const char* path){
